@@ -146,6 +146,79 @@ def celt(e):
 def crows(rows):
     return clist([clist([celt(e) for e in r]) for r in rows])
 
+# ------------------------------------------------------------------ history of the argument arrays
+PRE_OPS = ['add', 'sub', 'mul', 'div']
+PRE_OTHER = ['bigger', 'bigger', 'same', 'scalar', 'row', 'col', 'bad']
+PRE_FORM = ['uarray', 'ndarray', 'list']
+
+def gen_prelude(rng, case):
+    """array operations performed on the operands BEFORE the linear-algebra call (results thrown
+    away, exceptions caught): broadcasting binary operations with the operand first or second,
+    against larger / equal / smaller / scalar / incompatible partners, some of which raise
+    (zero divisors) ; unary operations and views.  The la functions depend on contents only."""
+    steps = []
+    for _ in range(rng.randint(1, 4)):
+        t = rng.choice(['a', 'b']) if case.get('b') is not None else 'a'
+        if rng.random() < 0.2:
+            steps.append({'k': 'unary', 't': t, 'on': rng.choice(['arg', 'base']),
+                          'f': rng.choice(['neg', 'pos', 'T', 'transpose', 'slice', 'abs', 'sqrt', 'log'])})
+        else:
+            steps.append({'k': 'bin', 't': t, 'on': rng.choice(['arg', 'arg', 'base']),
+                          'pos': rng.choice(['first', 'second']), 'op': rng.choice(PRE_OPS + ['div']),
+                          'other': rng.choice(PRE_OTHER), 'form': rng.choice(PRE_FORM),
+                          'zero': rng.random() < 0.5, 'lead': rng.randint(2, 3)})
+    return steps
+
+def _other_array(step, shape):
+    """the partner of a binary prelude operation, as nested lists of floats (or a scalar)"""
+    import numpy as np
+    kind = step['other']
+    if kind == 'scalar':
+        return 0.0 if step['zero'] else 2.5
+    if kind == 'bigger': shp = (step['lead'],) + tuple(shape)
+    elif kind == 'same': shp = tuple(shape)
+    elif kind == 'row': shp = (shape[-1],)
+    elif kind == 'col': shp = (shape[0], 1) if len(shape) == 2 else (1,)
+    else: shp = (shape[-1] + 1,)
+    cnt = int(np.prod(shp)) if shp else 1
+    vals = [1.0 + 0.5 * i for i in range(cnt)]
+    if step['zero'] and cnt: vals[cnt // 2] = 0.0
+    return np.array(vals, dtype=object).reshape(shp)
+
+def run_prelude(case, a, b, bases):
+    """returns the list of outcome tags (for the distribution); never raises"""
+    import operator, numpy as np
+    from GTC import la, core
+    tags = []
+    for st in case.get('prelude') or []:
+        arr = {'a': a, 'b': b}[st['t']]
+        if st.get('on') == 'base': arr = bases[0 if st['t'] == 'a' else 1]
+        if arr is None: continue
+        try:
+            if st['k'] == 'unary':
+                f = st['f']
+                if f == 'neg': -arr
+                elif f == 'pos': +arr
+                elif f == 'T': arr.T
+                elif f == 'transpose': la.transpose(arr)
+                elif f == 'slice': arr[::-1]
+                elif f == 'abs': abs(arr)
+                elif f == 'sqrt': core.sqrt(arr)
+                elif f == 'log': core.log(arr)
+                tags.append('pre-unary-ok')
+                continue
+            other = _other_array(st, arr.shape)
+            if isinstance(other, np.ndarray):
+                if st['form'] == 'uarray': other = la.uarray(other)
+                elif st['form'] == 'list': other = other.tolist()
+            op = {'add': operator.add, 'sub': operator.sub, 'mul': operator.mul, 'div': operator.truediv}[st['op']]
+            if st['pos'] == 'first': op(arr, other)
+            else: op(other, arr)
+            tags.append('pre-bin-ok')
+        except Exception as ex:
+            tags.append('pre-raises-' + type(ex).__name__)
+    return tags
+
 def snapshot(x):
     return None if x is None else (crows(rows_of(x)), [id(e) for e in x.flat])
 
@@ -159,6 +232,7 @@ def case_term(case):
                         a.shape, a.strides, None if b is None else (b.shape, b.strides))
     before = snap_all()
     info = {'exn': None, 'args_modified': False}
+    info['prelude'] = run_prelude(case, a, b, bases)
     try:
         r = call_impl(case, a, b)
         R = crows(rows_of(r))
@@ -301,7 +375,7 @@ def gen_case(rng, ctx, malformed=False):
         if style == 'nonsquare':
             vals = [[rnd_val(rng) for _ in range(n + 1)] for _ in range(n)]
         elif style == 'tiny':      # a well-conditioned matrix scaled far down: pivots are tiny, not zero
-            sc = rng.choice([2.0 ** -50, 1e-13, 2.0 ** -400])
+            sc = rng.choice([2.0 ** -50, 1e-13, 1e-17, 2.0 ** -400])
             vals = [[v * sc for v in r] for r in gen_matrix_vals(rng, n, 'dom')]
         else:
             vals = gen_matrix_vals(rng, n, style)
@@ -327,11 +401,16 @@ def gen_case(rng, ctx, malformed=False):
         if shape[1] == '2': case['b'] = [[gen_elem(rng, kind, pool) for _ in range(p)] for _ in range(bm)]
         else: case['b'] = [gen_elem(rng, kind, pool) for _ in range(bm)]
         case['style'] = 'shape' + shape + ('-misaligned' if malformed else '')
-    add_views(rng, case)
+    add_history(rng, case)
     return case
 
 def is2d(rows):
     return bool(rows) and isinstance(rows[0], list) and bool(rows[0]) and isinstance(rows[0][0], list)
+
+def add_history(rng, case):
+    add_views(rng, case)
+    if rng.random() < 0.4:
+        case['prelude'] = gen_prelude(rng, case)
 
 def add_views(rng, case):
     """how the arguments are laid out in memory: half of the calls get a transpose view, a
@@ -364,6 +443,8 @@ def classify(case, info):
             'a_view=' + str(case.get('a_view'))]
     if case.get('b') is not None: tags.append('b_view=' + str(case.get('b_view')))
     if info['exn']: tags.append('raises=' + info['exn'])
+    tags.extend(info.get('prelude') or [])
+    if case.get('prelude'): tags.append('with-prelude')
     return tags
 
 def run_corr(rng, ncases, name):
@@ -397,7 +478,10 @@ def run_corr(rng, ncases, name):
             'rule': 'random calls of la.solve/inv/det, LU.invab, la.matmul/dot/@, la.transpose on arrays of int / float / '
                     'uncertain-real / mixed elements (elementary inputs shared between a and b, intermediates, result() nodes, '
                     'constants, zero values with uncertainty), n = 1..6, row-permuted diagonally dominant / random / zero-leading '
-                    'matrices, every 8th case singular, zero-row, non-square or misaligned; result elements, argument contents '
+                    'matrices, every 8th case singular, zero-row, non-square or misaligned; half of the arguments are views; 40 % of the calls '
+                    'are preceded by a random history of array operations on the operands or their base arrays (broadcasting binary '
+                    'operations as first / second operand that succeed or raise and are caught, unary operations, views) which the model '
+                    'ignores; result elements, argument contents '
                     'after the call and exception classes compared bit for bit with the FElt model; non-trivial = n > 1; '
                     'distinct by hash of the case',
             'samples': [{'case': c} for c in cases[:2]]}
@@ -416,7 +500,7 @@ def gen_oracle_case(rng):
     pool = gen_pool(rng) if kind != 'float' and kind != 'int' else []
     vals = gen_matrix_vals(rng, n, 'dom', integer=(kind == 'int'))
     if kind == 'float' and rng.random() < 0.3:      # tiny pivots, same conditioning (plain floats only: exact values)
-        sc = rng.choice([2.0 ** -50, 1e-13, 2.0 ** -200])
+        sc = rng.choice([2.0 ** -50, 1e-13, 1e-17, 2.0 ** -200])
         vals = [[v * sc for v in r] for r in vals]
     def el(v):
         if kind == 'complex' and rng.random() < 0.5: return ['zc', v, rnd_val(rng) * 0.1]
@@ -431,7 +515,7 @@ def gen_oracle_case(rng):
     if fn in ('invab', 'matmul'):
         m = rng.randint(1, 3)
         case['b'] = [[rhs() for _ in range(m)] for _ in range(n)]
-    add_views(rng, case)
+    add_history(rng, case)
     return case
 
 def flat_descr(rows):
@@ -497,6 +581,7 @@ def oracle_check(case):
     snap = lambda arr: None if arr is None else [(id(e), repr(e)) for e in arr.flat]
     snap_all = lambda: (snap(a), snap(b), snap(bases[0]), snap(bases[1]))
     before = snap_all()
+    run_prelude(case, a, b, bases)
     try:
         r = call_impl(case, a, b)
     except Exception as ex:
